@@ -235,10 +235,16 @@ func (w *worker) plan(r int) roundCase {
 	gs := []int{2, 2, 3, 3, 4, 4, 6, 8, 8, 12, 16, 32}
 	rc := roundCase{Round: r, Procs: procsOf[(k+r%w.nShards)%len(procsOf)], G: gs[rng.IntN(len(gs))], Fonts: k%2 == 0, Delays: (k/2)%2 == 1 && haveOsmon}
 	// each shard works on its own small pool of documents (the runs alone are the expensive part)
-	pool := w.pool(r % w.nShards)
+	pool := w.pool(r%w.nShards, k)
 	for g := 0; g < rc.G; g++ {
 		op := ops[rng.IntN(len(ops))]
-		rc.Tasks = append(rc.Tasks, task{Op: op.Name, Doc: pool[rng.IntN(len(pool))], Doc2: pool[rng.IntN(len(pool))], Spin: []int{0, 0, 1, 5, 20, 100, 400}[rng.IntN(7)]})
+		tk := task{Op: op.Name, Doc: pool[rng.IntN(len(pool))], Doc2: pool[rng.IntN(len(pool))], Spin: []int{0, 0, 1, 5, 20, 100, 400}[rng.IntN(7)]}
+		if g < 2 && pool[len(pool)-1] >= w.m.nGeneral {
+			// the first two goroutines of every round work on (their own copies of) a document whose
+			// context holds a shared zero cell: at least one concurrent pair per round
+			tk.Doc = pool[len(pool)-1]
+		}
+		rc.Tasks = append(rc.Tasks, tk)
 	}
 	if rc.Fonts {
 		rc.Readers = 2 + rng.IntN(5)
@@ -247,18 +253,30 @@ func (w *worker) plan(r int) roundCase {
 	return rc
 }
 
-// pool returns the indices of the documents shard i draws from.
-func (w *worker) pool(i int) []int {
+// pool returns the indices of the documents shard i draws from in its k-th round.
+func (w *worker) pool(i, k int) []int {
 	n := w.m.nGeneral
 	per := w.t.Pick(2, 6)
 	var out []int
 	for j := 0; j < per; j++ {
 		out = append(out, (i*per+j)%n)
 	}
-	// plus the shard's free-list documents (freelist.go): a third (thorough: a quarter) of the pool
+	// plus free-list documents (freelist.go): another one (thorough: two) in each of the shard's rounds,
+	// and LAST one of the kinds that leave a package-level zero cell in the context (sharedCellKinds)
 	nf := len(w.m.docs) - n
 	for j := 0; j < w.t.Pick(1, 2) && nf > 0; j++ {
-		out = append(out, n+(i*w.t.Pick(1, 2)+j)%nf)
+		out = append(out, n+(i+k*w.t.Pick(1, 2)+j)%nf)
+	}
+	var sh []int
+	for j := n; j < len(w.m.docs); j++ {
+		for _, kind := range sharedCellKinds {
+			if strings.HasSuffix(w.m.docs[j].Name, "/"+kind) {
+				sh = append(sh, j)
+			}
+		}
+	}
+	if len(sh) > 0 {
+		out = append(out, sh[(i+k)%len(sh)])
 	}
 	return out
 }
@@ -396,6 +414,10 @@ func (w *worker) round(r int) {
 		d, _ := w.docsFor(op, tk)
 		t.Eval(fmt.Sprintf("det/%s/%s/G=%d/P=%d", tk.Op, d.Name, rc.G, rc.Procs))
 		t.Count("ops/"+tk.Op, 1)
+		if f := strings.SplitN(d.Name, "/", 3); f[0] == "freelist" && len(f) == 3 {
+			t.Count("ops_on_freelist_docs", 1)
+			t.Count("ops_on_freelist_docs/"+f[2], 1)
+		}
 		if results[g].Panic != "" {
 			t.Count("pdfcpu_panics", 1)
 		}
